@@ -2660,7 +2660,7 @@ fintEvalBCall(DataObj retDataObj)
 		(void)fintEval(&expr1);
 		(void)fintEval(&expr2);
 		(void)fintEval(&expr3);
-		retDataObj->fiSInt = (expr1.fiSInt * expr2.fiSInt) % expr3.fiSInt;
+		retDataObj->fiSInt = fiSIntTimesMod(expr1.fiSInt, expr2.fiSInt, expr3.fiSInt);
 		myType = FOAM_SInt;
 		break;
 
